@@ -35,9 +35,11 @@ class TaskHandler:
         self._pool = ThreadPoolExecutor(max_workers=2)
         self._pending = {}
         self._job_id = 0
-        self._lock = threading.Lock()
+        # re-entrant, both: the thread inside submit_task or flush can get here again (a signal handler that shuts the
+        # agent down, a tracepoint of the application on one of these very lines) and must not wait for itself
+        self._lock = threading.RLock()
         # accepting a task and closing the handler are one step each, under this lock
-        self._accept_lock = threading.Lock()
+        self._accept_lock = threading.RLock()
         self._open = True
 
     def _next_id(self):
